@@ -407,8 +407,14 @@ class Exec:
             raise Unsupported(f"augmented operator {type(s.op).__name__}")
         if isinstance(cur, Arr) and isinstance(s.target, ast.Name):
             # in-place numpy update: mutates the object (aliases see it)
-            new = self.binop(op, cur, v, s)
             self.frame_store(cur, s, env, fr)
+            new = self.binop(op, cur, v, s)
+            if isinstance(new, Opaque):
+                # abstract mode: the new contents are unknown, the in-place write itself is what matters (frame obligation above)
+                if cur.base is not None:
+                    raise Unsupported("in-place update through a view")
+                cur.set_term(z3.Const(fresh_name(cur.name or "arr"), cur.term.sort()))
+                return
             cur.set_term(new.term) if cur.base is None else self._bulk_store_view(cur, new)
             if new.kind != cur.kind:
                 if cur.kind == "int" and new.kind == "real":
@@ -1830,7 +1836,8 @@ class Exec:
     def call(self, fn, args, kwargs, n, env, fr):
         _keep = ("DataArray", "xarray.DataArray", "xr.DataArray", "dict", "isinstance", "len", "copy.deepcopy")
         if isinstance(fn, Builtin) and not (self.abstract and fn.name not in _keep
-                                            and any(isinstance(a, Opaque) for a in list(args) + list(kwargs.values()))):
+                                            and (any(isinstance(a, Opaque) for a in list(args) + list(kwargs.values()))
+                                                 or _canon_mod(fn.name).startswith("numpy."))):
             if fn.fn is not None:
                 return fn.fn(self, args, kwargs, n)
             h = self.models.get("builtins." + fn.name)
@@ -1842,7 +1849,8 @@ class Exec:
         if isinstance(fn, BoundMethod):
             return self.call_method(fn.obj, fn.name, args, kwargs, n, env, fr)
         if isinstance(fn, (Builtin, ModRef)) and self.abstract and fn.name not in _keep \
-                and any(isinstance(a, Opaque) for a in list(args) + list(kwargs.values())):
+                and (any(isinstance(a, Opaque) for a in list(args) + list(kwargs.values()))
+                     or _canon_mod(fn.name).startswith("numpy.")):
             cname = _canon_mod(fn.name)
             if cname in self._MUTATING_LIB:
                 raise Unsupported(f"library function {cname} mutates its argument (no abstraction)")
